@@ -132,6 +132,12 @@ Proof.
   intros s s' r Hb E. inversion E; subst. split; [apply keepsdata_refl; exact Hb|]. intros a X. inversion X; subst. exact Hf.
 Qed.
 
+Lemma mst_df_create_invalid b g n t : mst b (df_create_invalid g n t) (fun f => b <= f).
+Proof.
+  unfold df_create_invalid. eapply mst_bind; [apply mst_mget|]. intros s0 _.
+  destruct (d_mem (py_cols s0 g) n); apply mst_raiseQ.
+Qed.
+
 Lemma mst_copy_field_into b c f g n : mst0 b (copy_field_into c f g n).
 Proof.
   unfold copy_field_into. apply mst_bind0; [apply mst_ensure_valid|]. intros _.
@@ -265,7 +271,7 @@ Proof.
                  | apply mst_ds_setitem | apply mst_ds_delitem | apply mst_ds_drop
                  | (apply mst_bind0; [first [apply mst_ds_getitem | apply mst_df_getitem | apply mst_edf_copy | apply mst_edf_move
                                              | apply mst_ds_create_dataframe | apply mst_ds_require ] | intros ?]) ].
-  - (* OCreate *) eapply mst_bind; [apply mst_df_create_field|]. intros f Hf. apply mst_field_write. exact Hf.
+  - (* OCreate *) eapply mst_bind; [destruct (5 <=? t); [apply mst_df_create_invalid | apply mst_df_create_field]|]. intros f Hf. apply mst_field_write. exact Hf.
   - (* ODSDeleteDF *) unfold ds_delete_dataframe. apply mst_bind0; [apply mst_mget|]. intros s0. apply mst_ds_delitem.
 Qed.
 
